@@ -370,3 +370,64 @@ Qed.
 
 Lemma valid_on_fixed_conforms : Conforms valid_on_type valid_on_fixed.
 Proof. cbn. split; [intros _; reflexivity|exact I]. Qed.
+
+(* ------------------------------------------------------------------ no shape mismatch turns into undefined *)
+Lemma explain_ops_agrees :
+  forall ops v exprs,
+    model_evaluate_ops v ops exprs
+    = match explain_ops v ops exprs with XOk r => Ok r | XMissing => Undef | XMismatch => Undef end.
+Proof.
+  induction ops as [|op ops IH]; intros v exprs; cbn [model_evaluate_ops explain_ops]; [reflexivity|].
+  destruct op as [name| |n].
+  - destruct v; try reflexivity. destruct (assoc name fields); [apply IH|reflexivity].
+  - destruct exprs as [|sub exprs']; [reflexivity|].
+    destruct v; try reflexivity.
+    + destruct sub; try reflexivity. destruct (usize_try_from z); [|reflexivity].
+      destruct (vec_get elems n); [apply IH|reflexivity].
+    + destruct sub; try reflexivity. destruct (dict_get b entries); [apply IH|reflexivity].
+  - destruct v; try reflexivity. destruct (f (firstn n exprs)); [apply IH|reflexivity].
+Qed.
+
+Lemma no_shape_mismatch :
+  forall path ty v exprs ty',
+    Conforms ty v ->
+    typechecks ty path = Some ty' ->
+    exprs_match path exprs ->
+    explain_ops v (ops_of path) exprs <> XMismatch.
+Proof.
+  induction path as [|op path IH]; intros ty v exprs ty' HC HT HM; [discriminate|].
+  cbn [typechecks] in HT. destruct (type_step ty op) as [ty1|] eqn:Es; [|discriminate].
+  destruct op as [name|sty|args]; cbn [ops_of map op_of explain_ops]; cbn [type_step] in Es; cbn [exprs_match] in HM.
+  - destruct ty as [| | | | |ftys| | |]; try discriminate.
+    destruct v as [| | | | |fields| | | |]; try (exact (False_ind _ HC)); try discriminate;
+      try (cbn in HC; discriminate HC).
+    destruct (assoc name fields) as [v1|] eqn:Ev; [|discriminate].
+    rewrite Conforms_obj in HC.
+    exact (IH _ _ _ _ (Conforms_fields_get _ _ _ _ _ HC Es Ev) HT HM).
+  - destruct exprs as [|sub exprs']; [contradiction|]. destruct HM as [Hk HM].
+    destruct ty as [| | | | | |e|e|]; try discriminate.
+    + destruct (ety_eqb sty EInteger) eqn:Ee; [|discriminate]. inversion Es; subst ty1.
+      destruct sty; try discriminate.
+      destruct v as [| | | | | |elems| | |]; try (exact (False_ind _ HC)); try discriminate;
+        try (cbn in HC; discriminate HC).
+      destruct sub; try discriminate.
+      destruct (usize_try_from z) as [i|]; [|discriminate].
+      destruct (vec_get elems i) as [v1|] eqn:En; [|discriminate].
+      rewrite Conforms_arr in HC.
+      exact (IH _ _ _ _ (Conforms_elems_nth _ _ _ _ HC En) HT HM).
+    + destruct (ety_eqb sty EBytes) eqn:Ee; [|discriminate]. inversion Es; subst ty1.
+      destruct sty; try discriminate.
+      destruct v as [| | | | | | |entries| |]; try (exact (False_ind _ HC)); try discriminate;
+        try (cbn in HC; discriminate HC).
+      destruct sub; try discriminate.
+      destruct (dict_get b entries) as [v1|] eqn:Eg; [|discriminate].
+      rewrite Conforms_dict in HC.
+      exact (IH _ _ _ _ (Conforms_entries_get _ _ _ _ HC Eg) HT HM).
+  - destruct ty as [| | | | | | | |valid ret]; try discriminate.
+    destruct (check_all_arguments_types valid args); [|discriminate]. inversion Es; subst ty1.
+    destruct v as [| | | | | | | |f|]; try (exact (False_ind _ HC)); try discriminate;
+      try (cbn in HC; discriminate HC).
+    destruct (f (firstn (length args) exprs)) as [v1|] eqn:Ef; [|discriminate].
+    cbn [Conforms] in HC. specialize (HC (firstn (length args) exprs)). rewrite Ef in HC.
+    exact (IH _ _ _ _ HC HT HM).
+Qed.
